@@ -11,6 +11,10 @@
        with zeros, long ones cut), IsContract, String, SetStringStrict, Bytes, SetBytes, Equal against the same /
        other type / other id / nil address, and the codec (RLP) form
    (N) the nil address: Equal(nil, nil) and its codec form (the nil item, not 21 zero bytes)
+   Object reuse: every setter / decoder (SetStringStrict, SetString, UnmarshalJSON, SetBytes, RLPDecodeSelf,
+   SetTypeAndID, Set) is applied to an Address object that is fresh, or already holds an account, or a contract
+   address (held).  The result never depends on that history: it is the result for a fresh object, and a rejected
+   input leaves the object as it was.
    Characters are classes:
      "c" "h" "x"   the letters of the prefixes (c is also a hex digit)
      "z" = 0, "1" = 1, "d" = 2..9, "a" = a b d e f           lower-case hex digits
@@ -41,8 +45,9 @@ VARIABLES fam,    \* "" | "S" | "B" | "CA" | "CC" | "N"
           str,    \* text (character classes)
           byt,    \* byte string (pairs of hex digit classes)
           addr,   \* the Address object: [set, contract, id]
+          held,   \* what the object that the setters / decoders are applied to held before: "fresh" | "acct" | "ctr"
           hist
-vars == <<fam, pc, str, byt, addr, hist>>
+vars == <<fam, pc, str, byt, addr, held, hist>>
 
 PipeS == <<"strict", "lenient", "veoa", "vscore", "vaddr", "print", "bytes", "frombytes">>
 PipeB == <<"frombytes", "print", "strict", "bytes">>
@@ -108,7 +113,7 @@ Other(a, v) == CASE v = "eq_same" -> a
                  [] OTHER -> None
 
 ----------------------------------------------------------------------------
-Init == fam = "" /\ pc = 0 /\ str = <<>> /\ byt = <<>> /\ addr = None /\ hist = <<>>
+Init == fam = "" /\ pc = 0 /\ str = <<>> /\ byt = <<>> /\ addr = None /\ held = "fresh" /\ hist = <<>>
 
 \* canonical pattern of a text / byte string (generator shaping)
 HexCyc(i) == <<"z", "1", "d", "a", "c">>[(i % 5) + 1]
@@ -119,20 +124,25 @@ FillB(i) == <<HexCyc(2 * i + 1), HexCyc(2 * i + 2)>>
 Type(c) == /\ fam \in {"", "S"} /\ pc = 0 /\ Len(str) < MaxStr
            /\ IF Len(str) < FreeLen THEN TRUE ELSE Devs(Append(str, c)) <= Dev
            /\ fam' = "S" /\ str' = Append(str, c)
-           /\ UNCHANGED <<pc, byt, addr, hist>>
+           /\ UNCHANGED <<pc, byt, addr, held, hist>>
 PushByte(b) == /\ fam \in {"", "B"} /\ pc = 0 /\ Len(byt) < MaxBytes
                /\ IF byt = <<>> \/ Dev >= MaxBytes THEN TRUE ELSE b = FillB(Len(byt))
                /\ fam' = "B" /\ byt' = Append(byt, b)
-               /\ UNCHANGED <<pc, str, addr, hist>>
+               /\ UNCHANGED <<pc, str, addr, held, hist>>
 \* the caller starts calling
-Start(f) == /\ pc = 0
-            /\ IF f \in ByteFams THEN fam \in {"", "B"} /\ Len(byt) \in CallBLens /\ (f = "B" \/ Len(byt) <= L + 2)
-               ELSE IF f = "N" THEN fam = ""
-               ELSE fam \in {"", "S"} /\ Len(str) \in CallLens
-            /\ pc' = 1 /\ fam' = f
-            /\ UNCHANGED <<str, byt, addr, hist>>
+\* histories explored: byte forms and constructors with all three, texts with a contract address (and a fresh
+\* object for texts of the canonical length)
+Helds(f) == IF f = "S" THEN (IF Len(str) = 2 * L + 2 THEN {"fresh", "ctr"} ELSE {"ctr"})
+            ELSE IF f = "N" THEN {"fresh"} ELSE {"fresh", "acct", "ctr"}
+Start(f, h) ==
+  /\ pc = 0 /\ h \in Helds(f) /\ held' = h
+  /\ IF f \in ByteFams THEN fam \in {"", "B"} /\ Len(byt) \in CallBLens /\ (f = "B" \/ Len(byt) <= L + 2)
+     ELSE IF f = "N" THEN fam = ""
+     ELSE fam \in {"", "S"} /\ Len(str) \in CallLens
+  /\ pc' = 1 /\ fam' = f
+  /\ UNCHANGED <<str, byt, addr, hist>>
 
-Log(r) == hist' = Append(hist, r)
+Log(r) == hist' = Append(hist, r @@ [held |-> held]) /\ UNCHANGED held
 Adv == pc' = pc + 1
 
 Strict ==
@@ -200,7 +210,7 @@ CodecCall ==
 
 Next == \/ \E c \in Chars : Type(c)
         \/ \E b \in ByteSet \cup {FillB(Len(byt))} : PushByte(b)
-        \/ \E f \in {"S", "B", "CA", "CC", "N"} : Start(f)
+        \/ \E f \in {"S", "B", "CA", "CC", "N"}, h \in {"fresh", "acct", "ctr"} : Start(f, h)
         \/ Strict
         \/ LenientCall
         \/ \E rule \in {"veoa", "vscore", "vaddr"} : Validate(rule)
